@@ -67,6 +67,8 @@ def obligations(tier):
             continue
         for body in ('ok', 'notif'):
             obs.append({'h': 'endpoints', 'integ': integ, 'target': target, 'nep': nep, 'body': body})
+        if integ == 'flask':
+            obs.append({'h': 'endpoints', 'integ': integ, 'target': target, 'nep': nep, 'body': 'ok', 'slash': 1})
     for integ, seq in it.product(('flask', 'aiohttp'), (('notif', 'notif'), ('notif', 'ok', 'notif'), ('ok', 'ok'), ('notif', 'notif', 'notif'), ('fail', 'notif'))):
         obs.append({'h': 'sequence', 'integ': integ, 'seq': list(seq)})
     n = 1 if tier == 'quick' else 2
@@ -210,7 +212,7 @@ def h_http(ob):
 
 def h_endpoints(ob):
     """Several endpoint prefixes on one application: a request to one endpoint is served by THAT endpoint's dispatcher."""
-    PREFIXES = ('', '/v1', '/v2')
+    PREFIXES = ('', '/v1', '/v2') if not ob.get('slash') else ('', '/v1/', '/nested/v2/')      # 'slash': prefixes WRITTEN with a trailing slash
 
     def run(env):
         integ, nep, target = ob['integ'], ob['nep'], ob['target']
@@ -223,7 +225,7 @@ def h_endpoints(ob):
             return _acoro(where) if is_async else where
 
         body = BODY_TEXT[ob['body']].replace('"echo"', '"where"')
-        path = '/api' + PREFIXES[target]
+        path = '/api' + PREFIXES[target].rstrip('/')
         try:
             if integ == 'flask':
                 import flask
